@@ -16,6 +16,7 @@ import (
 	"github.com/ajitpratap0/GoSQLX/pkg/sql/tokenizer"
 	"regexp"
 	"strings"
+	"time"
 
 	"github.com/ajitpratap0/GoSQLX/pkg/gosqlx"
 	"github.com/ajitpratap0/GoSQLX/pkg/sql/parser"
@@ -286,6 +287,7 @@ func Check() *common.Check {
 		Level: "fault_enumeration",
 		Rule: "for each input (one statement per poll-site context: plain, CTE, nested CTE, CASE, scalar/IN/EXISTS/quantified sub-query, derived table, JOIN ON, set operation, function argument, BETWEEN/IN/LIKE, array index, INSERT…SELECT, DML, script, invalid, 250- and 1000-token lists, 26 lexical layouts, every clause option of sqlgen, an input one byte over the size limit (thorough: one over the token limit; polls 0-2, P/2, P-2..P only); " +
 			"thorough adds comments, empty input, tokenizer error, MERGE, CREATE TABLE, window frame, 2500 tokens and every expression hole of sqlgen.Holes() filled with a nested expression) and each of gosqlx.ParseWithContext, Tokenizer.TokenizeContext, Parser.ParseContextFromModelTokens: " +
+			"gosqlx.ParseWithTimeout with timeouts 0, -1ns, -1ms, -1h (expired at entry) and 1h (never fires) on every input; " +
 			"P = polls of ctx.Err() in an undisturbed run is measured, then one case per k in 0..P and per kind in {Canceled, DeadlineExceeded} with a context that reports done from its (k+1)-th poll on; " +
 			"distinct = (entry point, input, k, kind); non-trivial = the context turned done during the call after at least one poll had seen it live (0 < k < P)",
 		Assume: []string{
@@ -296,6 +298,35 @@ func Check() *common.Check {
 			"residue: C08 probe set on the same Parser / Tokenizer instance, a few gosqlx.Parse calls after gosqlx.ParseWithContext (which uses the tokenizer pool), each probe on its own re-execution of the cancelled call",
 		},
 		Enumerate: func(e *common.Enum) {
+			// the timeout front end: a deadline that has already passed when the call starts (zero or negative timeout: the
+			// context is done synchronously, no timer involved) and a deadline that cannot fire (one hour)
+			for _, in := range inputs(e.Thorough()) {
+				if strings.HasPrefix(in.fam, "over-") || strings.HasPrefix(in.fam, "tokens-") {
+					continue
+				}
+				for _, d := range []time.Duration{0, -1, -time.Millisecond, -time.Hour, time.Hour} {
+					in, d := in, d
+					e.Do(fmt.Sprintf("timeout|%s|%v", in.fam, d), func(c *common.Ctx) {
+						c.Input(fmt.Sprintf("gosqlx.ParseWithTimeout(%v) on: %s", d, common.Trim(in.sql, 300)))
+						t, err := gosqlx.ParseWithTimeout(in.sql, d)
+						if d <= 0 {
+							if t != nil {
+								c.Fail("tree-returned-after-cancel:gosqlx.ParseWithTimeout", fmt.Sprintf("timeout %v has passed before the call starts, yet a tree is returned", d))
+							}
+							if err == nil || !errors.Is(err, context.DeadlineExceeded) {
+								c.Fail("not-ctx-error:gosqlx.ParseWithTimeout:expired-at-entry", fmt.Sprintf("timeout %v has passed before the call starts; errors.Is(err, DeadlineExceeded) is false for %v", d, err))
+							}
+							c.Outcome("timeout:expired-at-entry")
+						} else {
+							if got, want := probe.Tree(t, err), probe.Tree(gosqlx.Parse(in.sql)); got != want {
+								c.Fail("nofire-differs:gosqlx.ParseWithTimeout", fmt.Sprintf("a one-hour timeout gives another result than gosqlx.Parse\n got: %s\nwant: %s", common.Trim(got, 400), common.Trim(want, 400)))
+							}
+							c.Outcome("timeout:never-fires")
+						}
+						c.NonTrivial()
+					})
+				}
+			}
 			ents := entries()
 			kinds := []error{context.Canceled, context.DeadlineExceeded}
 			for _, in := range inputs(e.Thorough()) {
